@@ -607,7 +607,7 @@ func genOpts(rt *rapid.T, w *World, maxUpgrades []int, plain, conc bool) Opts {
 		return o
 	}
 	if plain {
-		if conc && len(w.Vulns) > 1 && chance(rt, "hasexplicit", 1, 3) {
+		if conc && len(w.Vulns) > 1 && chance(rt, "hasexplicit", 2, 5) {
 			// "only fix these": explicit list in C16 worlds; now and then an explicit record
 			// carries the id of a non-listed record as an OSV alias
 			for i, v := range w.Vulns {
@@ -710,8 +710,9 @@ func genWorld(rt *rapid.T, kinds []string, maxUpgrades []int, plain, conc bool) 
 	case w.Sys == "maven" && motif == 7:
 		motif = 6
 	}
-	if conc && motif == 0 && chance(rt, "motif.conc", 1, 3) {
-		motif = draw(rt, "motif.which", 1, 1, 3, 5)
+	if conc && (motif == 0 || motif == 2 || motif == 4 || motif == 6) && chance(rt, "motif.conc", 1, 2) {
+		// C16: favour the shapes with several patch attempts that interfere
+		motif = draw(rt, "motif.which", 1, 1, 3, 3, 3, 5)
 		if w.Sys == "maven" && motif == 5 {
 			motif = 3
 		}
